@@ -72,6 +72,26 @@ def _child_opt(cfg, workdir):
     }
 
 
+def _collinear_x(st):
+    """End-atom distance x of the collinear stationary point A..B..C (r_AB = r_BC = x, r_AC = 2x) of the stub's all-pairs
+    potential: root of e'(x) + e'(2x) by bisection (harm: r0/sqrt(3))."""
+
+    def de(r):
+        if st["pot"] == "harm":
+            return st["k"] * r * (r * r - st["r0"] ** 2) / (2.0 * st["r0"] ** 2)
+        ex = math.exp(-st["a"] * (r - st["r0"]))
+        return 2.0 * st["D"] * st["a"] * (1.0 - ex) * ex
+
+    lo, hi = 0.5 * st["r0"], st["r0"]
+    for _ in range(200):
+        mid = 0.5 * (lo + hi)
+        if de(mid) + de(2.0 * mid) > 0:
+            hi = mid
+        else:
+            lo = mid
+    return float(f"{0.5 * (lo + hi):.12g}")
+
+
 def gen(rng, tier):
     real = rng.random() < (0.08 if tier == "quick" else 0.12)
     cfg = {"driver": "real" if real else "stub"}
@@ -114,6 +134,24 @@ def gen(rng, tier):
             cfg["max_evl"] = rng.choice([200, 500])
             cfg["force_tol"] = rng.choice([1e-9, 1e-7, 1e-5])
             cfg["long_run"] = True
+        if rng.random() < 0.12:
+            # start next to a saddle point: a triatomic member sits on the collinear stationary point of the all-pairs
+            # potential, displaced sideways by eps.  Its largest force component starts BELOW the tolerance, rises
+            # above it while the molecule leaves the saddle and drops below it for good only much later; meanwhile a
+            # batch mate relaxes from a distorted start.  The run must go on until the batch maximum is below the
+            # tolerance at one and the same evaluation.
+            mate = rng.choice(["ch4", "nh3", "h2co", "c2h4"])
+            cfg["batch"] = rng.choice([["h2o", mate], [mate, "h2o"]])
+            nmax = max(len(mdsim.POOL[m][0]) for m in cfg["batch"])
+            keff = st["k"] * 4.0 if pot == "harm" else 2.0 * st["D"] * st["a"] ** 2 * 3.0
+            cfg["alpha"] = float(f"{min(2e-2, 1.0 / (2.0 * (nmax - 1) * keff)):.3g}")
+            cfg["saddle"] = {"member": cfg["batch"].index("h2o"), "eps": rng.choice([1e-4, 1e-3, 1e-2]), "x": _collinear_x(st)}
+            cfg["distort"] = rng.choice([0.1, 0.3])
+            cfg["max_evl"] = 4000
+            cfg["force_tol"] = rng.choice([0.02, 0.05, 0.1])
+            cfg.pop("extra_pad", None)
+            cfg.pop("pad_coords", None)
+            cfg.pop("long_run", None)
     cfg["geom_seed"] = rng.randrange(1 << 20)
     cfg["log"] = rng.random() < 0.8
     if not real and rng.random() < 0.3:
@@ -200,6 +238,16 @@ def _execute(record, root):
             failures.append(core.fail("untruthful-verdict", "cap reached without convergence but 'converged' was reported"))
         if converged and cfg.get("log") and not said_conv:
             failures.append(core.fail("untruthful-verdict", "converged but no 'converged with N step' line was printed"))
+    if cfg.get("saddle"):
+        stats["probes"]["saddle_start_runs"] = 1
+        ms = int(cfg["saddle"]["member"])
+        fm = np.abs(F[:, ms]).reshape(n, -1).max(1)
+        up = np.nonzero(fm > ftol)[0]
+        if fm[0] <= ftol and len(up) and n > up[0]:
+            stats["probes"]["member_below_tolerance_then_above"] = 1
+            others = np.abs(np.delete(F, ms, axis=1)).reshape(n, -1).max(1)
+            if (others[up[0] :] <= ftol).any() and (fm[np.nonzero(others <= ftol)[0][0] :] > ftol).any():
+                stats["probes"]["mates_converged_while_member_back_above_tolerance"] = 1
     if converged and n == cap:
         stats["probes"]["converged_on_last_allowed_evaluation"] = 1
     if not converged:
